@@ -5,6 +5,7 @@ import (
 	"flag"
 	"fmt"
 	"os"
+	"path"
 	"runtime"
 	"runtime/debug"
 	"strings"
@@ -74,6 +75,8 @@ func engineFor(prop string) Engine {
 		return e2Engine{}
 	case "C06":
 		return e4aEngine{}
+	case "C07", "C09", "C10":
+		return e5Engine{}
 	}
 	return nil
 }
@@ -161,8 +164,8 @@ func TestSim(t *testing.T) {
 			out.Samples = append(out.Samples, plan)
 		}
 		if v := res.first(*fProp); v != nil {
-			if known[v.Sig()] {
-				out.Known[v.Sig()]++
+			if pat := knownMatch(known, v.Sig()); pat != "" {
+				out.Known[pat]++
 				continue
 			}
 			out.Violation = v
@@ -303,4 +306,19 @@ func TestGen(t *testing.T) {
 	}
 	b, _ := json.Marshal(engineFor(*fProp).Gen(*fProp, *fSeed0, *fTier))
 	fmt.Println(string(b))
+}
+
+// knownMatch returns the known-finding pattern (glob on the class) that covers a violation signature.
+func knownMatch(known map[string]bool, sig string) string {
+	if known[sig] {
+		return sig
+	}
+	for pat := range known {
+		if strings.Contains(pat, "*") {
+			if ok, _ := path.Match(strings.ReplaceAll(pat, "/", "\x01"), strings.ReplaceAll(sig, "/", "\x01")); ok {
+				return pat
+			}
+		}
+	}
+	return ""
 }
